@@ -31,6 +31,9 @@ def main():
         if prop == "C13":
             import check_codec
             return check_codec.check(prop, tier, seed, replay)
+        if prop in ("C03", "C04"):
+            import check_prog
+            return check_prog.check_fifo(prop, tier, seed, replay)
         print("no check for", prop)
         return 2
     except vlib.Infra as e:
